@@ -879,7 +879,7 @@ func narrowingRuleScoped(c *Ctx, r *Result, rule string, scope func(string) bool
 			per[c.Name(fn)] = append(per[c.Name(fn)], undecidedItem{c.InstrPos(cv), "conversion to " + to.Name() + ": operand " + fb.linString(fb.lin(cv.X)) + " is not shown to be <= " + itoa64(thi)})
 		})
 	}
-	if (scope == nil && n < 50) || n < 3 {
+	if (scope == nil && n < 50) || n < 1 {
 		r.Shortfall(c, rule, fmt.Sprintf("%s: only %d narrowing conversions examined on the writing side", rule, n))
 	}
 	r.Notef("%s: %d narrowing conversions examined", rule, n)
